@@ -46,7 +46,8 @@ ASSUMPTIONS = [
 MINIMUMS = {
     'quick': {'evaluations': 3000, 'runs_with_preemption': 3000, 'preempt_in:building.py': 50,
               'preempt_in:history.py': 50, 'preempt_in:signatures.py': 50,
-              'preempt_in:reraised_exception.py': 10, 'free_running_rounds': 20, 'context_copying_launcher_runs': 5, 'pairs_enumerated': 64},
+              'preempt_in:reraised_exception.py': 10, 'free_running_rounds': 20, 'context_copying_launcher_runs': 5, 'pairs_enumerated': 64,
+              'successive_runs_with_reused_thread_ident': 30},
     'thorough': {'evaluations': 1000},
 }
 
@@ -63,6 +64,7 @@ def plan(tier):
       shards.append({'name': f'enum1-{i}', 'kind': 'enum1', 'pairs': pairs[i::14], 'per_pair': 70, 'n': 1})
     shards.append({'name': 'random', 'kind': 'random', 'n': 250})
     shards.append({'name': 'free', 'kind': 'free', 'n': 25})
+    shards.append({'name': 'successive', 'kind': 'successive', 'n': 60})
   else:
     for i in range(16):
       shards.append({'name': f'enum1-{i}', 'kind': 'enum1', 'pairs': pairs[i::16], 'per_pair': None, 'n': 1,
@@ -73,6 +75,7 @@ def plan(tier):
     for i in range(4):
       shards.append({'name': f'random{i}', 'kind': 'random', 'n': 2500, 'start': i * 2500, 'timeout': 7000})
     shards.append({'name': 'free', 'kind': 'free', 'n': 300})
+    shards.append({'name': 'successive', 'kind': 'successive', 'n': 3000})
   return shards
 
 
@@ -300,14 +303,24 @@ def make(names):
 _SOLO = {}
 
 
+_SOLO_LINES = {}
+
+
 def solo(name, idx):
   """Result of the program run alone (scheduler installed, single thread) + its yield points."""
   key = (name, idx)
   if key not in _SOLO:
     env = Env()
     prog = FACTORIES[name](env, f'T{idx}')
-    run = sched.Run([prog], sched.Segments([(0, None)])).go()
+    r0 = sched.Run([prog], sched.Segments([(0, None)]))
+    r0.trace = []
+    run = r0.go()
     _SOLO[key] = (run.results[0], run.points[0])
+    # the first yield point at which each distinct source line is reached
+    first = {}
+    for i, (_, f, ln) in enumerate(run.trace, 1):
+      first.setdefault((f, ln), i)
+    _SOLO_LINES[key] = sorted(first.values())
   return _SOLO[key]
 
 
@@ -375,6 +388,12 @@ def run_enum1(spec, acc):
       stride = max(1, na // per)
       off = random.Random(f'{acc.seed}:{a}:{b}').randrange(stride)
       points = range(1 + off, na + 1, stride)
+      if a == b:
+        # a program against itself: besides the grid, every distinct source line the program
+        # executes is used once as the preemption point (windows one line wide in code that
+        # both threads run, e.g. a two-statement update of a shared cache)
+        points = sorted(set(points) | set(_SOLO_LINES[(a, 0)]))
+        acc.obs('line_covering_preemption_points', len(_SOLO_LINES[(a, 0)]))
     for i in points:
       env, progs = make([a, b])
       strat = sched.Segments([(0, i), (1, None), (0, None)])
@@ -481,5 +500,67 @@ def run_free(spec, acc):
     sys.setswitchinterval(old)
 
 
+def run_successive(spec, acc):
+  """Threads that run one AFTER another (each joined before the next starts; the operating
+  system then reuses thread identifiers): what a finished thread did to its thread-local state
+  (tracking switched off and never on again, a build left through an exception, a suspended
+  block left through an exception) must not reach a later thread."""
+  from fiddle._src import history
+  for _, rng in acc.cases(spec):
+    idents = []
+    reports = []
+
+    def worker(k, leave):
+      idents.append(threading.get_ident())
+      rep = {'k': k, 'leave': leave, 'tracking_at_start': history.tracking_enabled()}
+      cfg = fdl.Config(kinds.two, x=k)
+      cfg.y = k + 1
+      rep['entries'] = {key: len(v) for key, v in cfg.__argument_history__.items()}
+      try:
+        rep['built'] = safe_repr(fdl.build(cfg), 80)
+      except Exception as e:  # pylint: disable=broad-except
+        rep['built'] = 'raise:' + type(e).__name__
+      # what this thread leaves behind
+      if leave == 'tracking-off':
+        history.set_tracking(enabled=False)
+      elif leave == 'failing-build':
+        try:
+          fdl.build(fdl.Config(_boom))
+        except Exception:  # pylint: disable=broad-except
+          pass
+      elif leave == 'suspended-block-left-by-exception':
+        try:
+          with history.suspend_tracking():
+            raise KeyError('leave')
+        except KeyError:
+          pass
+      reports.append(rep)
+
+    n = rng.randint(4, 8)
+    for k in range(n):
+      leave = rng.choice(['tracking-off', 'tracking-off', 'failing-build',
+                          'suspended-block-left-by-exception', 'nothing'])
+      t = threading.Thread(target=worker, args=(k, leave))
+      t.start()
+      t.join()
+    acc.obs('successive_thread_runs')
+    if len(set(idents)) < len(idents):
+      acc.obs('successive_runs_with_reused_thread_ident')
+    acc.case(('successive', tuple(r['leave'] for r in reports)), True)
+    for r in reports:
+      solo = {'x': 1, 'y': 1, '__fn_or_cls__': 1}
+      if not r['tracking_at_start'] or r['entries'] != solo or r['built'].startswith('raise'):
+        acc.violation('successive-thread-result-differs-from-solo:after-' + reports[max(0, r['k'] - 1)]['leave'],
+                      f'thread {r["k"]} started with tracking_enabled={r["tracking_at_start"]}, history '
+                      f'sizes {r["entries"]} (alone: {solo}), build {r["built"]}',
+                      {'threads': [x['leave'] for x in reports]})
+        break
+
+
+def _boom():
+  raise ValueError('boom')
+
+
 def run_shard(spec, seed, acc):
-  {'enum1': run_enum1, 'enum2': run_enum2, 'random': run_random, 'free': run_free}[spec['kind']](spec, acc)
+  {'enum1': run_enum1, 'enum2': run_enum2, 'random': run_random, 'free': run_free,
+   'successive': run_successive}[spec['kind']](spec, acc)
